@@ -330,7 +330,7 @@ fn prefix_runs(scn: &mut Scenario, cb: &[&str], rng: &mut Rng, all_prefixes: boo
                 r.plan.wshort = random_chunks(rng);
             }
             let n_out: usize = scn.chain.iter().flat_map(|b| b.txs.iter()).map(|t| t.outputs.len()).sum();
-            fit_writes(&mut r.plan, n_out as u64 * 130, 100_000);
+            fit_writes(&mut r.plan, n_out as u64 * 130, 20_000);
             scn.runs.push(r);
         }
     }
